@@ -58,7 +58,7 @@ PROPS = {
         "not_decided": "equality with a byte vector for all call sequences and buffer sizes (values of pos/cap/offset/total_len across histories); set_len near u64::MAX",
     },
     "C08": {
-        "rules": [rules_struct.branchunit("C08"), rules_zero.run, rules_follow.make("R-INIT", "C08"), rules_io.poskeep, rules_det.short, rules_struct.ceil("C08"), rules_struct.initkind("C08"), rules_struct.keepcount("C08"), rules_units.units("C08"), rules_follow.make("R-CUTTAIL", "C08"), rules_zero.minifill("C08"), rules_det.written("C08")],
+        "rules": [rules_struct.branchunit("C08"), rules_zero.run, rules_follow.make("R-INIT", "C08"), rules_io.poskeep, rules_det.short, rules_struct.ceil("C08"), rules_struct.initkind("C08"), rules_struct.keepcount("C08"), rules_units.units("C08"), rules_follow.make("R-CUTTAIL", "C08"), rules_zero.minifill("C08"), rules_zero.surplus("C08"), rules_det.written("C08")],
         "explanation": "R-ZERO: in the function that stores a stream's new length (resize_stream, reached from Stream::set_len), a zero-fill event (a backend write whose data provenance is io::repeat(0) / [0; N], directly or in a direct helper) exists, is controlled only by the comparison new length > old length, and lies on every path from the 'grows' edge of that comparison to the length store (error exits excepted). "
                        "Alternatively accepted: zeroing on shrink in both chain kinds plus zeroing of newly allocated mini sectors. R-INIT: regular sectors are reset with the requested initialiser (SectorInit::Zero for stream data) on both the reuse and the append path of allocate_sector.",
         "not_decided": "that the bytes are zero and that the zero-filled range is exactly [old, new): values",
@@ -365,6 +365,7 @@ for _pid, _txt in _ADDED14.items():
     PROPS[_pid]["explanation"] = PROPS[_pid]["explanation"] + _txt
 
 _ADDED15 = {
+    "C08": " R-SURPLUS: if the zero fill of a regular chain stops at the end of the old last sector, no write-back may fail between appending sectors to the chain and updating the entry's length - on today's tree both halves hold, which is the recorded finding D26 (known_findings.json): after such a failure a growing set_len exposes the stream's own discarded bytes. R-ZERO also requires that the length store does not precede the zero fill.",
     "C11": " R-POSKEEP also runs for this property: the audited discharge of `total_len - position` in the handle's arithmetic rests on position <= total_len, which R-POSKEEP maintains (a length re-read after a failed resize without clamping the position makes the next relative seek trip the assertion).",
     "C15": " R-FREELIST also runs for this property (a free list that is cut instead of filtered after the MiniFAT was trimmed forgets released mini sectors that sit behind the trimmed ones). R-DIRLEN also covers the vector that open_internal hands to Directory::new: popping trailing unallocated entries at load time makes allocate_dir_entry extend a chain that has room.",
 }
